@@ -234,7 +234,48 @@ func runC10(c *Ctx, phase string) {
 	c.Floor("compose_false", 500)
 	c.Floor("extract_set_checks", 500)
 	c.Floor("big_product_pairs", 40)
+	c.Floor("many_term_pairs", 200)
 
+	// many distinct terms (65..160): rewrites that move the late terms to the front, re-associate and split the chain;
+	// allowed lists = all / all but one / half, so that a term that silently stops counting changes the verdict
+	nBig := c.Pick(300, 3000)
+	for i := 0; i < nBig; i++ {
+		if !c.Mine(i) {
+			continue
+		}
+		bc := genBigCase(c, "C10", 2*i) // even indices are the many-terms mode
+		r := gen.NewRand(c.Seed, 0xC10B, uint64(i))
+		leaf := termTexts(bc.Terms)
+		t2 := bc.Tree.Clone()
+		var names []string
+		for try := 0; try < 30 && len(names) < 4; try++ {
+			if name, _ := applyRewriteAt(&t2, r.Intn(t2.Size()), []int{0, 1, 0, 1, 2}[r.Intn(5)], r, len(leaf), 4096); name != "" {
+				names = append(names, name)
+			}
+		}
+		// always commute at the root as well: the last operand becomes the first
+		if !t2.IsLeaf() {
+			t2 = gen.Bin(t2.Op, t2.R, t2.L)
+			names = append(names, "commute")
+		}
+		cs := C10Case{Kind: "rewrite", Leaf: ev.QSs(leaf), Rewrites: names, KeepsSet: true,
+			E1: bc.Text, E2: ev.QS(t2.Render(leaf, gen.RenderOpt{Paren: gen.ParenMinimal})), Allowed: ev.QSs(termTexts(bc.Allowed))}
+		judgeC10(c, cs)
+		// composition law on two halves of the term set
+		if !bc.Tree.IsLeaf() {
+			l := ev.QS(bc.Tree.L.Render(leaf, gen.RenderOpt{Paren: gen.ParenMinimal}))
+			rr := ev.QS(bc.Tree.R.Render(leaf, gen.RenderOpt{Paren: gen.ParenMinimal}))
+			judgeC10(c, C10Case{Kind: "compose", Leaf: ev.QSs(leaf), Op: strings.ToUpper(bc.Tree.Op), E1: l, E2: rr, Allowed: ev.QSs(termTexts(bc.Allowed))})
+		}
+		// ExtractLicenses sets of the two spellings
+		x1, x2 := c.Ext(string(cs.E1)), c.Ext(string(cs.E2))
+		if !x1.Clean() || !x2.Clean() || asSet(x1.List) != asSet(x2.List) {
+			c.Violation("rewrite-big:extract", "C10.extract", cs, "ExtractLicenses differs between two spellings of a %d-term expression: %d vs %d terms", len(leaf), len(x1.List), len(x2.List))
+		}
+		c.Inc("many_term_pairs")
+		c.Max("most_distinct_terms", int64(len(leaf)))
+		c.Distinct(gen.HashStr("big", string(cs.E1), string(cs.E2)))
+	}
 	for i := 0; i < n; i++ {
 		if !c.Mine(i) {
 			continue
